@@ -162,6 +162,20 @@ def datetimes():
                     bad.append({'key': 'datetime-roundtrip', 'detail': f'{info!r} -> {text!r} -> {back!r}'})
                 elif str(back) != text:
                     bad.append({'key': 'datetime-unstable', 'detail': f'{text!r} -> {str(back)!r}'})
+    # the time-zone dimension exhaustively: every offset the xsd value space has (-14:00 .. +14:00, whole minutes),
+    # on a date and on a dateTime
+    for off in range(-840, 841):
+        tz = datetime.timezone(datetime.timedelta(minutes=off))
+        want = 'Z' if off == 0 else '%s%02d:%02d' % ('-' if off < 0 else '+', abs(off) // 60, abs(off) % 60)
+        for f in (dict(year=1969, month=7, day=20), dict(year=1969, month=7, day=20, hour=20, minute=17, second=40.5)):
+            cases += 1
+            info = iso.XsdDateInformation(tz_info=tz, **f)
+            text = str(info)
+            back = iso.parse_date_time(text)
+            if not text.endswith(want):
+                bad.append({'key': 'timezone-lexical', 'detail': f'offset {off} min written as {text!r}, expected suffix {want!r}'})
+            elif back.tz_info is None or back.tz_info.utcoffset(None) != tz.utcoffset(None):
+                bad.append({'key': 'timezone-roundtrip', 'detail': f'offset {off} min: {text!r} read back as {back!r}'})
     for illegal in ('2024-13-01', '2024-00-10', '2024-01-32', '2024-01-01T24:00:01', '2024-01-01T25:00:00',
                     '24-01-01', '2024-01-01T10:00', '2024-01-01+15:00', '2024-01-01+14:30', '02024', '2024-1-1',
                     '2024-01-01T10:60:00', '2024-01-01T10:00:60'):
@@ -209,6 +223,6 @@ if __name__ == '__main__':
           bound='sign x 1..18 digits x structured digit patterns (+ seeded random) x exponent -18..18')
     c.run('C18.duration_lexical', 'B', duration_lexical, bound='all combinations of 5 hour x 5 minute x 13 second x 20 fraction lexical forms + seeded random digit strings (up to 13 fraction digits)')
     c.run('C18.duration_enum', 'B', durations, bound='boundary values + seeded random ints/decimals/floats below 1e12 s')
-    c.run('C18.datetime_enum', 'B', datetimes, bound='11 years x 6 time zones x all 4 lexical forms x 9 second values + 13 illegal forms')
+    c.run('C18.datetime_enum', 'B', datetimes, bound='11 years x 6 time zones x all 4 lexical forms x 9 second values + 13 illegal forms; ALL 1681 time-zone offsets of the xsd value space (-14:00..+14:00 in minutes) on a date and a dateTime')
     c.run('C18.enum_int_lexical', 'B', enums_and_ints, bound='every member of every Enum class in pm_types; 5 illegal integer forms')
     c.emit()
